@@ -75,7 +75,8 @@ def long_chain(chk, tier, seed):
                       'a straight one-way chain of 1300 nodes one unit apart, fixes next to the first and the last-but-one segment, non-emitting states on, no cut-offs', '')
 
 
-SPEC['post'] = [long_chain]
+from rtc import geo_suites as _GS
+SPEC['post'] = [long_chain, _GS.polar_suite]
 
 
 def run(tier, seed, only=None):
